@@ -92,7 +92,9 @@ Bases == { G("Point", <<50, 60>>), G("MultiPoint", L1), G("LineString", L3), G("
            G("Polygon", P1), G("Polygon", P3), G("MultiPolygon", <<P1, P2, P3>>), G("Bounds", << <<0, 0>>, <<300, 200>> >>),
            G("GeometryCollection", << G("Point", <<50, 60>>), G("LineString", L2), G("Polygon", P2),
                                       G("GeometryCollection", << G("MultiPoint", L1), G("Point", <<5000, 5000>>) >>) >>),
-           G("MultiLineString", <<>>), G("Polygon", <<>>), G("GeometryCollection", <<>>) }
+           G("MultiLineString", <<>>), G("Polygon", <<>>), G("GeometryCollection", <<>>),
+           (* closed lines: a line string is compared position by position even when its last vertex repeats the first *)
+           G("LineString", Box(0, 7000, 300)), G("MultiLineString", <<Box(0, 8000, 300), L2>>), G("MultiPoint", Box(0, 9000, 300)) }
 
 (* vertex-wise maps (depend on the vertex value only, so a closing vertex moves with its twin); a map is named
    by a record: [k |-> "jig", s] moves every coordinate by < Tol, [k |-> "disp", target, dx, dy] moves one vertex,
@@ -145,7 +147,9 @@ InsertedEmpty(g) == CASE g.t \in {"MultiLineString", "Polygon"} -> {G(g.t, Appen
                       [] g.t = "GeometryCollection" -> {G(g.t, Append(g.m, G("LineString", <<>>)))}
                       [] OTHER -> {}
 RotRing(r, k) == IF IsClosedRing(r) THEN LET o == RotOpen(SubSeq(r, 1, Len(r) - 1), k) IN Append(o, o[1]) ELSE r
-Rotated(g) == CASE g.t = "Polygon" -> {G(g.t, [i \in DOMAIN g.m |-> RotRing(g.m[i], k)]) : k \in 1..3}
+Rotated(g) == CASE g.t \in {"LineString", "MultiPoint"} /\ IsClosedRing(g.m) -> {G(g.t, RotRing(g.m, k)) : k \in 1..3}
+                [] g.t = "MultiLineString" /\ Len(g.m) > 0 /\ IsClosedRing(g.m[1]) -> {G(g.t, [g.m EXCEPT ![1] = RotRing(g.m[1], k)]) : k \in 1..3}
+                [] g.t = "Polygon" -> {G(g.t, [i \in DOMAIN g.m |-> RotRing(g.m[i], k)]) : k \in 1..3}
                 [] g.t = "MultiPolygon" -> {G(g.t, [i \in DOMAIN g.m |-> [j \in DOMAIN g.m[i] |-> RotRing(g.m[i][j], k)]]) : k \in 1..2}
                 [] OTHER -> {}
 RevSeq(s) == [i \in 1..Len(s) |-> s[Len(s) + 1 - i]]
